@@ -29,6 +29,10 @@ def main(argv):
   except ImportError as e:
     print('no check for %s (%s)' % (prop, e))
     return 64
+  except Exception:  # noqa: BLE001
+    import traceback
+    print('HARNESS-ERROR property=%s the check could not be loaded:\n%s' % (prop, traceback.format_exc()[-2000:]))
+    return 3
   if replay:
     return mod.replay(replay)
   try:
